@@ -26,7 +26,9 @@ remove_demo() { [ -d "$D/demo" ] && (cd "$D/demo" && find . -type f) | while rea
 run_demo() { # -> 0 pass, 1 fail
   local rc=0
   for p in $demo_pkgs; do
-    (cd $WT && timeout 600 go test -count=1 ./$p/ ) >>$LOG 2>&1 || rc=1
+    # only the demonstration's own tests (the package's timing-sensitive tests flake on a loaded machine)
+    names=$(cat "$D/demo/$p"/*_test.go 2>/dev/null | grep -oE '^func (Test[A-Za-z0-9_]*)' | awk '{print $2}' | paste -sd'|')
+    (cd $WT && timeout 600 go test -count=1 -run "^(${names:-Test})\$" ./$p/ ) >>$LOG 2>&1 || rc=1
   done
   return $rc
 }
